@@ -145,4 +145,194 @@ Section Oracle.
                 else is_raise r || negb (forallb (fun i => is_ok (inv_val_ stb i)) invs_after))
         end
     end.
+
+  (** *** the expected outcome, declaratively, when no contract evaluation raises *)
+  Definition inv_error (l : list contract) (st : store) : option exn :=
+    match find (fun i => negb (inv_holds_ st i)) l with
+    | Some i => match error_of U RInv i [("self", self)] st with inl x => Some x | inr _ => None end
+    | None => None
+    end.
+
+  Definition invs_benign (l : list contract) (st : store) : bool :=
+    forallb (fun i => is_ok (inv_val_ st i) && is_ok (error_of U RInv i [("self", self)] st)) l.
+
+  Definition expected_outcome : option (pv + exn) :=
+    if negb benign_to_body then None
+    else if negb (invs_hold_ invs_before st0) then option_map inr (inv_error invs_before st0)
+    else if negb pre_ok then option_map inr pre_error
+    else
+      match captured, u_body U args kwargs st0 with
+      | None, _ => None
+      | Some old, (BRaise e, _) => Some (inr (XObj e))
+      | Some old, (BRet v, stb) =>
+          let res := if has_checker then resolved_post s snaps post args kwargs old v else resolved in
+          if has_checker && negb (forallb (contract_benign RPost true res stb) post) then None
+          else if has_checker && negb (posts_hold m U post res stb) then option_map inr (post_error res stb)
+          else if negb (invs_benign invs_after stb) then None
+          else if negb (invs_hold_ invs_after stb) then option_map inr (inv_error invs_after stb)
+          else Some (inl (adjust v))
+      end.
+
+  Definition outcome_as_expected (r : pv + exn) : bool :=
+    match expected_outcome with Some e => outcome_eqb r e | None => true end.
+
+  (** *** C16: phases, list order, at most once *)
+  Definition phase_of (seen_body : bool) (e : event) : option nat :=
+    match e with
+    | EvCond RInv _ _ _ => Some (if seen_body then 5 else 0)
+    | EvCond RPre _ _ _ => Some 1
+    | EvCapture _ _ _ => Some 2
+    | EvBody _ _ => Some 3
+    | EvCond RPost _ _ _ => Some 4
+    | EvError _ _ => None
+    end.
+
+  Fixpoint phases_ok (cur : nat) (seen_body : bool) (t : list event) : bool :=
+    match t with
+    | [] => true
+    | e :: rest =>
+        match phase_of seen_body e with
+        | None => phases_ok cur seen_body rest
+        | Some p =>
+            Nat.leb cur p
+            && (if Nat.eqb p 3 then negb seen_body else true)
+            && phases_ok p (seen_body || Nat.eqb p 3) rest
+        end
+    end.
+
+  (** the conditions a conjunction evaluates: the longest prefix that holds, then the first that does not *)
+  Fixpoint evaluated_prefix (hold : contract -> bool) (l : list contract) : list Z * bool :=
+    match l with
+    | [] => ([], true)
+    | k :: rest => if hold k then let (ids, ok) := evaluated_prefix hold rest in (cid k :: ids, ok)
+                   else ([cid k], false)
+    end.
+
+  (** the groups tried: each up to its first falsy condition, until one group holds *)
+  Fixpoint expected_pre_ids (gs : list (list contract)) : list Z :=
+    match gs with
+    | [] => []
+    | g :: rest => let (ids, ok) := evaluated_prefix (holds m U RPre false resolved st0) g in
+                   if ok then ids else ids ++ expected_pre_ids rest
+    end.
+
+  (** ids of the condition evaluations of a role, the immediate re-evaluation of a lambda for its message dropped *)
+  Fixpoint cond_ids (r : role) (t : list event) (prev : option Z) : list Z :=
+    match t with
+    | [] => []
+    | EvCond r' k _ _ :: rest =>
+        if role_eqb r r'
+        then (match prev with
+              | Some k0 => if Z.eqb k0 k then cond_ids r rest None else k :: cond_ids r rest (Some k)
+              | None => k :: cond_ids r rest (Some k)
+              end)
+        else cond_ids r rest None
+    | _ :: rest => cond_ids r rest None
+    end.
+
+  Fixpoint zlist_eqb (a b : list Z) : bool :=
+    match a, b with
+    | [], [] => true
+    | x :: r, y :: r' => Z.eqb x y && zlist_eqb r r'
+    | _, _ => false
+    end.
+
+  Definition count_cond (k : Z) (t : list event) : nat :=
+    List.length (filter (fun e => match e with EvCond _ k' _ _ => Z.eqb k k' | _ => false end) t).
+  Definition count_error (k : Z) (t : list event) : nat :=
+    List.length (filter (fun e => match e with EvError k' _ => Z.eqb k k' | _ => false end) t).
+
+  Definition all_contracts : list contract :=
+    List.concat pre ++ post ++ match k_invs c with Some l => l | None => [] end.
+
+  Definition spec_C16 (t : list event) (r : pv + exn) : bool :=
+    phases_ok 0 false t
+    (* every condition at most once per check; a lambda once more for its message; invariants twice (before, after) *)
+    && forallb (fun k => Nat.leb (count_cond (cid k) t)
+                                 ((if clambda k then 2 else 1)
+                                  * (if existsb (fun i => Z.eqb (cid i) (cid k))
+                                                (match k_invs c with Some l => l | None => [] end) then 2 else 1)))
+               all_contracts
+    (* groups in order, each up to its first falsy condition, until one holds *)
+    && (if benign_to_body && invs_hold_ invs_before st0 && has_checker
+        then zlist_eqb (cond_ids RPre t None) (expected_pre_ids pre)
+        else true)
+    && outcome_as_expected r.
+
+  (** *** C08 *)
+  Definition capture_ids_ (t : list event) : list Z :=
+    flat_map (fun e => match e with EvCapture sd _ _ => [sd] | _ => [] end) t.
+
+  Fixpoint is_prefix (a b : list Z) : bool :=
+    match a, b with
+    | [], _ => true
+    | x :: r, y :: r' => Z.eqb x y && is_prefix r r'
+    | _ :: _, [] => false
+    end.
+
+  Definition capture_events_ok (t : list event) : bool :=
+    forallb (fun e => match e with
+                      | EvCapture sd kw st =>
+                          store_equiv st st0
+                          && match find (fun sn => Z.eqb (sid sn) sd) snaps with
+                             | Some sn => match select (sargs sn) (sargs sn) resolved with
+                                          | Some kw' => kw_eqb kw kw'
+                                          | None => false
+                                          end
+                             | None => false
+                             end
+                      | _ => true
+                      end) t.
+
+  Definition spec_C08 (t : list event) (r : pv + exn) : bool :=
+    let caps := capture_ids_ t in
+    let expected := if has_checker && capturing snaps post then map sid snaps else [] in
+    phases_ok 0 false t
+    && capture_events_ok t
+    (* exactly once each, in order, when the body is entered; never without postconditions; never if a precondition fails *)
+    && (if existsb is_body t then zlist_eqb caps expected else is_prefix caps expected)
+    && implb (negb (is_nil caps)) pre_ok
+    (* postconditions see the values captured before the body, whatever the body did *)
+    && (if existsb is_body t
+        then match captured, u_body U args kwargs st0 with
+             | Some old, (BRet v, stb) =>
+                 post_events_ok t (if has_checker then resolved_post s snaps post args kwargs old v else resolved) stb
+             | _, _ => true
+             end
+        else true).
+
+  (** *** C09 *)
+  Definition error_events_ok (t : list event) : bool :=
+    forallb (fun e => match e with
+                      | EvError k kw =>
+                          match find (fun x => Z.eqb (cid x) k) all_contracts with
+                          | Some x => match cerror x with
+                                      | EFactory eargs => forallb (fun kv => str_in (fst kv) eargs) kw
+                                                          && Nat.eqb (List.length kw) (List.length (filter (fun a => str_in a (map fst kw)) eargs))
+                                      | _ => false        (* only factories are called *)
+                                      end
+                          | None => false
+                          end
+                      | _ => true
+                      end) t.
+
+  Definition spec_C09 (t : list event) (r : pv + exn) : bool :=
+    error_events_ok t
+    && forallb (fun k => Nat.leb (count_error (cid k) t)
+                                 (if existsb (fun i => Z.eqb (cid i) (cid k))
+                                             (match k_invs c with Some l => l | None => [] end) then 2 else 1))
+               all_contracts
+    && outcome_as_expected r.
+
+  (** *** C14 (the run-time part): satisfied contracts are transparent *)
+  Definition spec_C14 (t : list event) (r : pv + exn) : bool :=
+    (* the body receives exactly the objects Python binds for the call *)
+    forallb (fun e => match e with
+                      | EvBody env st => match pybind s args kwargs with
+                                         | Some env' => kw_eqb env env' && store_equiv st st0
+                                         | None => false
+                                         end
+                      | _ => true
+                      end) t
+    && outcome_as_expected r.
 End Oracle.
